@@ -24,8 +24,8 @@ Proof. vm_compute. discriminate. Qed.
 
 (* C17: the envelope "passes SDK v1 validation" holds of ordinary requests, and the step is not an identity *)
 Example C17_premise_met :
-  names_ok (OPut (bs "tbl") (it "z" "1") None [] []) = true /\
-  fst (step lang_match lang_update V1 w_client (OPut (bs "tbl") (it "z" "1") None [] [])) <> w_client.
+  names_ok (OPut (bs "tbl") (it "z" "1") None [] [] false) = true /\
+  fst (step lang_match lang_update V1 w_client (OPut (bs "tbl") (it "z" "1") None [] [] false)) <> w_client.
 Proof. split; [reflexivity|vm_compute; discriminate]. Qed.
 
 (* C07: the premises of the frame theorem are met by an ordinary update, and its conclusion is what the model computes *)
